@@ -237,8 +237,7 @@ func (r *Reader) Has(sig [64]byte) (bool, error) {
 	}
 	// numHashes:
 	numHashesBuf := make([]byte, 4)
-	_, err := r.contentReader.ReadAt(numHashesBuf, int64(offset))
-	if err != nil {
+	if err := readFullAt(r.contentReader, numHashesBuf, int64(offset)); err != nil {
 		return false, err
 	}
 	numHashes := binary.LittleEndian.Uint32(numHashesBuf)
@@ -281,9 +280,21 @@ var ErrNotFound = fmt.Errorf("not found")
 
 func readUint64Le(reader io.ReaderAt, pos int64) (uint64, error) {
 	buf := make([]byte, 8)
-	_, err := reader.ReadAt(buf, pos)
-	if err != nil {
+	if err := readFullAt(reader, buf, pos); err != nil {
 		return 0, err
 	}
 	return binary.LittleEndian.Uint64(buf), nil
+}
+
+// readFullAt fills buf from reader at off. An io.ReaderAt may return io.EOF together with a
+// complete read that ends at the end of the source: that is a success. A short read is an error.
+func readFullAt(reader io.ReaderAt, buf []byte, off int64) error {
+	n, err := reader.ReadAt(buf, off)
+	if n == len(buf) {
+		return nil
+	}
+	if err == nil {
+		err = io.ErrUnexpectedEOF
+	}
+	return err
 }
